@@ -61,6 +61,9 @@ def run():
     mc = MediaCipher()
     lengths = list(range(0, 65)) + [rng.randint(65, 5000) for _ in range(40 if thorough else 8)] + \
               [16 * rng.randint(5, 300) for _ in range(20 if thorough else 4)] + ([1 << 20, (1 << 20) + 5] if thorough else [65536])
+    # lengths whose ciphertext body is an exact multiple of a buffer / chunk size, and their neighbours
+    for B in ((1024, 4096, 8192, 65536) if thorough else (4096, 8192)):
+        lengths += [B - 17, B - 16, B - 15, B - 1, B, B + 1, 2 * B - 16, 2 * B - 3]
     kinds = sorted(WRAP)
     nkeys = 4 if thorough else 2
     for L in lengths:
@@ -72,12 +75,18 @@ def run():
             raise core.MachineryError("length mapping inconsistent")
         for ki in range(nkeys):
             ref = bytes(bytearray(rng.getrandbits(8) for _ in range(32)))
-            content = rng.choice(["rand", "pad-like", "zeros"])
+            content = rng.choice(["rand", "pad-like", "zeros", "pkcs-tail"]) if ki or L > 64 else ("pkcs-tail" if L else "rand")
             if content == "rand":
                 p = bytes(bytearray(rng.getrandbits(8) for _ in range(min(L, 4096)))) * (L // 4096 + 1)
                 p = p[:L]
             elif content == "pad-like":
                 p = (bytes(bytearray([16])) * L) if L % 2 else (bytes(bytearray([1])) * L)
+            elif content == "pkcs-tail":
+                # content that ends in the very bytes the padding will add (a decryptor must strip the padding by its length, not by its value)
+                pv = 16 - L % 16
+                k = min(L, rng.choice([1, 2, 3, pv]))
+                p = bytes(bytearray(rng.getrandbits(8) for _ in range(min(L, 4096)))) * (L // 4096 + 1)
+                p = p[:L - k] + bytes(bytearray([pv])) * k
             else:
                 p = b"\x00" * L
             kind = kinds[(L + ki) % 4]
